@@ -110,7 +110,8 @@ fn ser_with(schema: &'static Built, cmd: &J, session: &mut Session) -> Result<J,
 	if slow {
 		config.allow_slow_sequence_to_bytes();
 	}
-	Ok(match fail_after {
+	#[allow(unused_mut)]
+	let mut out = match fail_after {
 		None => match serde_avro_fast::to_datum(&pres, Vec::new(), config) {
 			Ok(bytes) => json!({"res": "ok", "bytes": bytes_json(&bytes)}),
 			Err(e) => json!({"res": "err", "msg": e.to_string()}),
@@ -127,7 +128,14 @@ fn ser_with(schema: &'static Built, cmd: &J, session: &mut Session) -> Result<J,
 				Err(e) => json!({"res": "err", "msg": e.to_string(), "partial": bytes_json(&sink.got)}),
 			}
 		}
-	})
+	};
+	// hook: what the configuration keeps pooled after the call (lengths of the pooled buffers)
+	#[cfg(ten0_serde_avro_fast_verif)]
+	{
+		let (a, b) = config.verif_pool_lens();
+		out["pool"] = json!(a.into_iter().chain(b).collect::<Vec<usize>>());
+	}
+	Ok(out)
 }
 
 fn op_ser(session: &mut Session, cmd: &J) -> Result<J, String> {
